@@ -36,6 +36,19 @@ theorem lenAnswer_eq_fresh_copy {h : Heap} (r : h.Reachable) (v : Nat) (c : HCur
   rw [lenAnswer_eq_geom r v, hl, geom_copyCurve]
   exact ⟨rfl, rfl⟩
 
+/-- the cache of the model stores the GEOMETRY at fill time, so the statement is not about the length in particular: every quantity derived from
+a cached value (signed length, box, area, derivative curves, …: any function `f` of the geometry) equals the same quantity computed from the
+current geometry, in every reachable heap — a memo of ANY function of the geometry that every mutator resets is never stale -/
+theorem derived_answer_eq_geom {α : Type} (f : List (List Pt) → α) {h : Heap} (r : h.Reachable) (v : Nat) :
+    (h.lenAnswer v).map f = ((h.lookup v).map h.geom).map f := by
+  rw [lenAnswer_eq_geom r v]
+
+/-- … and over histories -/
+theorem derived_answer_runOps {α : Type} (f : List (List Pt) → α) (ops : List HeapOp) (v : Nat) :
+    ((Heap.init.runOps ops).lenAnswer v).map f
+      = (((Heap.init.runOps ops).lookup v).map (Heap.init.runOps ops).geom).map f :=
+  derived_answer_eq_geom f ⟨ops, rfl⟩ v
+
 /-! ### the pinned (unrepaired) behaviour: transformations keep the cached length -/
 
 /-- `Heap.step` except that `move/scale/rot` leave `c.cache` as it is (the defect of the pinned code) -/
